@@ -423,9 +423,10 @@ class Gen:
         kw = {}
         if part_explicit is not None:
             kw["partition_by"] = part_explicit
-        if r.random() < 0.2:
-            kw["filter"] = [self.ewise(tv, "bool", 1)]
-            self.features.add("agg_filter")
+        if r.random() < 0.25:
+            # one condition, or a list of conditions (all of them must hold)
+            kw["filter"] = [self.ewise(tv, "bool", 1) for _ in range(1 if r.random() < 0.55 else 2)]
+            self.features.add("agg_filter" if len(kw["filter"]) == 1 else "agg_filter_list")
         def arg(c):
             e = self.with_col(tv, c, depth - 1, mul_ok=False)
             return e if e is not None else self.ewise(tv, c, depth - 1, mul_ok=False)
@@ -899,6 +900,31 @@ def v_union(g: Gen, left: TV):
                 g.stmts.append(dict(id=t3.tid, op="rename", src=t2.tid, map=[[tmpn, n0]]))
                 g.register(t3)
                 g.features.add("union_hidden_same_label")
+                cur = t3
+    elif r.random() < 0.25 and len(cur.visible) > 2:
+        # the same, with the hidden column *after* the visible one that takes its name:
+        # drop(y) >> rename(x -> "y") >> mutate(x = …) for two columns x before y of one class
+        vis = [(n, c) for n, c in cur.visible if c not in cur.keys and cur.scope[c].kind == "ewise" and not cur.scope[c].const]
+        pairs = [(a, b) for i, a in enumerate(vis) for b in vis[i + 1:] if cur.scope[a[1]].cls == cur.scope[b[1]].cls]
+        if pairs:
+            (xn, xc), (yn, yc) = r.choice(pairs)
+            e = g.ewise(cur, cur.scope[xc].cls, 2)
+            if e is not None:
+                t1 = g.derive(cur)
+                t1.visible = [(n, c) for n, c in cur.visible if c != yc]
+                g.stmts.append(dict(id=t1.tid, op="drop", src=cur.tid, cols=[yn]))
+                g.register(t1)
+                t2 = g.derive(t1)
+                t2.visible = [((yn if c == xc else n), c) for n, c in t1.visible]
+                g.stmts.append(dict(id=t2.tid, op="rename", src=t1.tid, map=[[xn, yn]]))
+                g.register(t2)
+                t3 = g.derive(t2)
+                cid = g.new_cid()
+                t3.scope[cid] = ColInfo(cid, cur.scope[xc].cls, True, [], kind="ewise")
+                t3.visible = list(t2.visible) + [(xn, cid)]
+                g.stmts.append(dict(id=t3.tid, op="mutate", src=t2.tid, cols=[[xn, e]]))
+                g.register(t3)
+                g.features.add("union_hidden_label_after")
                 cur = t3
     # restore exactly the left's visible names (mutate may have added columns)
     want = left.names()
